@@ -118,6 +118,19 @@ def gen_cases(rng, tier):
             kind = "dc-degree"
             spec["method"] = dict(spec["method"], cls="DC", degree=rng.choice([2, 3, 5]), scheme="radau")
         spec["objective"] = [["at_tf", ["sq", xs[0]]]]
+        rhs_expr = None
+        if kind == "normal" and rng.random() < 0.25:
+            # polynomials on both sides of the comparison (the right one of lower degree)
+            rhs_expr = ["*", E.rand_const(rng), rng.choice(xs)]
+            if rng.random() < 0.5:
+                e = ["+", e, ["*", E.rand_const(rng), ["sq", rng.choice(xs)]]]
+            kinds = kinds + "+rhs"
+        if kind == "normal" and rhs_expr is None and rng.random() < 0.06:
+            kind = "bspline-signal"        # a B-spline parameter directly in the constraint: no guarantee exists
+        if rhs_expr is not None:
+            cases.append({"spec": spec, "expr": e, "rhs_expr": rhs_expr, "form": form, "bound": ocpgen.rnd(rng, -1, 1),
+                          "kinds": kinds, "kind": kind, "K": 8 if tier == "quick" else 30, "seed": rng.getrandbits(32)})
+            continue
         if len(cases) % 9 == 4 and kind == "normal":
             # state times derivative in both operand orders inside one expression, many points
             xa, xb = xs[0], xs[-1]
@@ -194,7 +207,15 @@ def run_case(case):
     try:
         b = C.call("declare", build.build_ocp, spec)
         e_mx = to_ca_inf(case["expr"], b)
-        con = (e_mx <= case["bound"]) if case["form"] == "le" else (e_mx >= case["bound"])
+        rhs_mx = case["bound"]
+        if case.get("rhs_expr") is not None:
+            rhs_mx = to_ca_inf(case["rhs_expr"], b) + case["bound"]
+        psig = None
+        if case["kind"] == "bspline-signal":
+            psig = b.stage.parameter(grid="bspline", order=2)
+            b.stage.set_value(psig, ca.DM(rng.standard_normal((1, N + 2))))
+            rhs_mx = psig + case["bound"]
+        con = (e_mx <= rhs_mx) if case["form"] == "le" else (e_mx >= rhs_mx)
         b.stage.subject_to(con, grid="inf", meta=build.meta_for(77))
         obs = engine.Observed(spec, b)
     except C.RockitRaised as e:
@@ -219,6 +240,8 @@ def run_case(case):
     for n in snames:
         tt, vv = st.sample(b.syms[n], grid="integrator", refine=7)
         outs += [ca.MX(tt), ca.MX(vv)]
+    if psig is not None:
+        outs.append(ca.MX(st.sample(psig, grid="integrator", refine=7)[1]))
     F = ca.Function("s", [view.x, view.p], outs)
     for it in range(case["K"]):
         try:
@@ -259,7 +282,13 @@ def run_case(case):
                     xs[n] = np.polyval(coef, tau)
                     xds[n] = np.polyval(np.polyder(coef), tau) / h
                 ev = ev_inf(case["expr"], xs, xds, ucur) * np.ones_like(tau)
-                sl = (case["bound"] - ev) if case["form"] == "le" else (ev - case["bound"])
+                bnd = case["bound"]
+                if case.get("rhs_expr") is not None:
+                    bnd = bnd + ev_inf(case["rhs_expr"], xs, xds, ucur) * np.ones_like(tau)
+                if psig is not None:
+                    pp_ = vals[-1].reshape(-1)[idx * 7:idx * 7 + 8]
+                    bnd = bnd + np.polyval(np.polyfit((tt - tt[0]) / h, pp_, 2), tau)
+                sl = (bnd - ev) if case["form"] == "le" else (ev - bnd)
                 if np.min(sl) < traj_min:
                     traj_min = float(np.min(sl))
                     worst_at = (k, l, float(tt[0] + h * tau[int(np.argmin(sl))]))
